@@ -63,7 +63,7 @@ NOTE = {
  'C19': 'Trusted: eq/str/hash as equality oracles, ASan. Field-completeness of every save/load pair is sampled, not enumerated (all classes with a save_basic overload are in the generator, including URatPoly, PrimePi, Primorial); integers around the word-size boundaries (2^31, 2^32, 2^63, 2^64, 10^18, 10^19) are generated on purpose; dumps that fail half way (an unserialisable node after serialisable ones) are interleaved with ordinary round trips on the same thread. NaN-valued doubles skip the eq oracle; generator avoids inputs on which constructors (not serialization) misbehave (listed in DESIGN.md).',
  'C20': 'Trusted: ASan/UBSan, the memory budget (64 MB per request / 512 MB live -> std::bad_alloc). Only mutations of valid dumps are explored (incl. integer strings replaced by adversarial numerals: "-", "", "0" as a denominator, "+1", "0x10", 19-20 digit boundary values ...); post-load use is str, hash, eq, __cmp__, eval_double as the property lists. DenseMatrix::loads is not covered.',
  'C23': 'Trusted: the harness GF(p)[x] arithmetic and Rabin test, ASan/UBSan. p <= 199, degree <= 12 for factorisation (p = 2: <= 8), <= 24 for arithmetic histories (a larger result is checked, then cut). Forced draws are boundary values (0, 1, 2, n/2, n-1) at chosen draw indices or for a bounded prefix (<= 120 draws), after which the seeded generator continues: constant streams without end are not injected, because retry loops legitimately need fresh randomness. gf_eval is called with points in [0, p) only; division of a constant by a non-zero multiple of p is not called (no inverse exists).',
- 'C25': 'Trusted: DenseMatrix operations as reference, eq/expand for value comparison, ASan/UBSan. Matrices up to 8x8, entries numbers and monomials; a pool member whose entries grow beyond 40 expression nodes is checked and then replaced by small values on the same sparsity pattern (bounded run time). csr_matmat_pass2 results compared by value only (it neither sorts nor shrinks, as its SciPy original). Result objects of binop / elementwise product may already hold an earlier result of the same shape.',
+ 'C25': 'Trusted: DenseMatrix operations as reference, eq/expand for value comparison, ASan/UBSan. Matrices up to 8x8, entries exact numbers and monomials, and in one plan in six (floatmode: no entry arithmetic issued, so the exact oracle stays sound) tiny real/complex doubles whose products and norms underflow; arithmetic on floating entries is not explored; a pool member whose entries grow beyond 40 expression nodes is checked and then replaced by small values on the same sparsity pattern (bounded run time). csr_matmat_pass2 results compared by value only (it neither sorts nor shrinks, as its SciPy original). Result objects of binop / elementwise product may already hold an earlier result of the same shape.',
  'C32': 'Trusted: raw GMP arithmetic (mpz_add/mul/divisible, mpq_*) and __int128 brute force in the harness, ASan/UBSan. Bounds: n <= 1e6 plus 40-bit semiprimes and n = q*r >= 2^64 with a small prime q for factoring; moduli <= 4000, primes = 1 (mod 8) in [10000, 34000] (Tonelli-Shanks path), and prime powers <= 2^40 with gcd(a, p) = 1 for the group-structure oracle; pure functions on arguments up to 2e12 (fibonacci/lucas <= 400, factorial <= 200, bernoulli <= 44). Which non-trivial divisor / which root / which primitive root of a composite modulus is returned is unspecified: only validity is required; Pollard methods may fail, never lie. Roots are compared as residues (negative representatives accepted). The allocator seam decides when a freed address is reused (per-run policy).',
  'C33': 'Trusted: the harness sieve of Eratosthenes as reference, ASan/UBSan reporting. Bounds: sieve sizes {1,2,3,4,8,16,32,64} KB, limits <= 3e6, <=5 live iterators. A bounded iterator is allowed to return cached primes beyond its limit (callers test p <= limit). An allocation may be made to fail inside generate_primes / next_prime (std::bad_alloc is then an accepted outcome of that call; later results of every client are still judged).',
  'C41': 'Trusted: ThreadSanitizer (bounded per-location history), the uninstrumented scheduler. Sequentially consistent interleavings at atomic-access granularity only (no hardware weak-memory effects); WITH_SYMENGINE_RCP=yes; operations outside the property list (sieve, series) not run concurrently. Besides shared expressions the workload has sibling pairs (same tree, one leaf changed, so eq/__cmp__ walk both to the end) and hand-off objects owned by the worker threads alone and released through reset / assignment / destruction (each must be destroyed exactly once). Blocking locks (pthread mutex / rwlock / once, hence std::mutex, std::shared_mutex, std::call_once) are taken through non-blocking wrappers and a spinning thread is descheduled after 256 yields at one address, so correctly synchronised code is neither stopped nor reported (mutants/C41/benign_mutex_must_stay_silent.patch must give exit 0).',
